@@ -29,7 +29,7 @@ pub fn digest_of(content: u64, both: bool) -> BTreeMap<String, String> {
 }
 
 const PATHS: &[&str] = &[
-    "a", "b", "c", "foo", "bar", "README", "src/main.c", "src/lib.c", "src/util/x.c", "out/bin", "out/lib.so",
+    ".gitignore", "dist/.payload", "a", "b", "c", "foo", "bar", "README", "src/main.c", "src/lib.c", "src/util/x.c", "out/bin", "out/lib.so",
     "docs/index", "x/y/z", "pkg.tar", "a.b", "dir/a", "dir/b", "t-1", "u_2",
 ];
 const STEP_NAMES: &[&str] = &["fetch", "build", "test", "pack", "sign", "lint", "s0", "s1", "s2", "s3", "x", "a-b", "c_d", "p9"];
@@ -274,7 +274,8 @@ fn gen_level(
                     stderr: se,
                     retval: Some(0),
                     other: BTreeMap::new(),
-                    command: cmd.clone(),
+                    // what was run need not be what the layout expects (verification only warns)
+                    command: if r.chance(1, 3) { vec!["sh".into(), "-c".into(), format!("make -j{} {}", r.below(9), names[si])] } else { cmd.clone() },
                     env: if r.chance(1, 5) { Some(BTreeMap::from([("PATH".to_string(), "/bin".to_string())])) } else { None },
                 };
                 files.push(FileSpec { name: fname, body: Body::Link(link), doc: DocSpec { signers: vec![k], ops: vec![], pretty: r.chance(1, 2) } });
@@ -1105,7 +1106,11 @@ pub fn apply_fault(t: &mut SupplyTrace, plan: &Plan, f: F, r: &mut Rng, prefer_s
             if let Body::Link(l) = &mut lv.files[victim].body {
                 let on_products = r.chance(1, 2);
                 let arts = if on_products { &mut l.products } else { &mut l.materials };
-                match r.below(4) {
+                match r.below(5) {
+                    4 => {
+                        // one more entry that carries no digest at all
+                        arts.insert("dissent/empty-digests".into(), BTreeMap::new());
+                    }
                     0 => {
                         arts.insert("dissent/extra".into(), digest_of(999_999, false));
                     }
